@@ -59,6 +59,8 @@ def load_corpus():
         if not line or line.startswith("#"):
             continue
         o = json.loads(line)
+        if o.get("family") == "param":
+            continue        # entries of the parameterised-aggregator family are run by gen/c04_param.py (own AST)
         out.append(dict(id="c04corpus_%d" % k, prog=ast_from_json(o["prog"]), inputs=[input_from_json(i) for i in o["inputs"]], family="corpus", note=o.get("note")))
     return out
 
@@ -178,6 +180,9 @@ def replay_case(path):
     says so, ascent_par!) vs model vs stratified oracle"""
     rp = json.load(open(path))
     cs = rp["case"]
+    if cs.get("family") == "param" and "ast" in cs:
+        from .. import c04_param
+        return c04_param.replay(cs)
     if "ast" not in cs or "input" not in cs:
         return None
     c = dict(id="c04replay", prog=ast_from_json(cs["ast"]), inputs=[input_from_json(cs["input"])], family=cs.get("family", "replay"))
@@ -239,15 +244,22 @@ def tie(tier, seed, replay):
     latm = c04_latmodel.check(tier, seed, tag="c04latmodel")
     mism += latm["mismatches"]
     times["lattice_aggregates_vs_model"] = round(time.time() - t0, 1)
+    # aggregators whose EXPRESSION mentions rule variables bound earlier (parameterised aggregators), serial and ascent_par! (gen/c04_param.py)
+    from .. import c04_param
+    t0 = time.time()
+    pm = c04_param.run(tier, seed, corpus_path=CORPUS)
+    mism += pm["mismatches"]
+    times["parameterised_aggregators"] = round(time.time() - t0, 1)
     sample = [dict(program=r["text"], summary=r["summary"], input=r["case"]["inputs"][0],
                    impl={k: v[1][:6] for k, v in prog.canon_snap(r["impl"][0]["snaps"][-1]).items()} if r["impl"] and "snaps" in r["impl"][0] else r["impl"])
               for r in (results[:2] + [r for r in rp["results"] if r["case"].get("family") == "recprod"][:2])]
-    return dict(evaluations=sum(len(r["case"]["inputs"]) for r in results) + rp["evaluations"] + lat["evaluations"] + latm["evaluations"],
-                distinct_nontrivial=len(distinct) + rp["distinct"] + lat["distinct"],
-                rule="(a) lattice family (impl vs python Kleene + aggregate oracle, and the serial runs vs the Coq model LatEngine/LatAggEval.v arun_plan on the dumped plan): a 2-key lattice raised over many iterations of a recursive stratum (capped longest walks / shortest paths) aggregated (count, sum, min, max, negation) through every index shape (first / second key column bound, nothing bound, all key columns bound, a derived unary-key lattice), ascent! and ascent_par! (pools 1, 3, 8, with / without inter_rule_parallelism, perturbation seeds); (b) random stratified programs: relations on 2-3 levels, rules of level L aggregate (count/sum/min/max) or negate relations of lower levels with every mix of key / wildcard / aggregated columns, results feed higher levels; x 3-4 inputs; non-trivial = the run derives at least one fact; (c) recursive-producer family (gen/c04_gen.py): ONE looping SCC (left / right / non-linear closure, reachability, mutual recursion, capped distance labels) whose rules carry extra heads into side relations (written only / also read in the SCC / also written by an earlier SCC / with input rows; head order varied; multi-head base rules), every level-1 relation aggregated / negated by later strata through every key shape, plain readers, recursive consumers, a third level; inputs = graphs with several routes of different length (diamonds, cycles, dense, chains) and NEARLY SATURATED inputs (the stratified model with one level-1 relation reset to its input rows: the first iteration is the last), serial and a slice through ascent_par!; non-trivial = a relation written in the loop and read by no rule of it gains a tuple and a consumer derives something; distinct = distinct (program, input)",
-                samples=sample, distribution=dict(programs=len(results), features=feats, recursive_producer=rp["distribution"]), mismatches=mism,
+    return dict(evaluations=sum(len(r["case"]["inputs"]) for r in results) + rp["evaluations"] + lat["evaluations"] + latm["evaluations"] + pm["evaluations"],
+                distinct_nontrivial=len(distinct) + rp["distinct"] + lat["distinct"] + pm["distinct"],
+                rule="(a) lattice family (impl vs python Kleene + aggregate oracle, and the serial runs vs the Coq model LatEngine/LatAggEval.v arun_plan on the dumped plan): a 2-key lattice raised over many iterations of a recursive stratum (capped longest walks / shortest paths) aggregated (count, sum, min, max, negation) through every index shape (first / second key column bound, nothing bound, all key columns bound, a derived unary-key lattice), ascent! and ascent_par! (pools 1, 3, 8, with / without inter_rule_parallelism, perturbation seeds); (b) random stratified programs: relations on 2-3 levels, rules of level L aggregate (count/sum/min/max) or negate relations of lower levels with every mix of key / wildcard / aggregated columns, results feed higher levels; x 3-4 inputs; non-trivial = the run derives at least one fact; (c) recursive-producer family (gen/c04_gen.py): ONE looping SCC (left / right / non-linear closure, reachability, mutual recursion, capped distance labels) whose rules carry extra heads into side relations (written only / also read in the SCC / also written by an earlier SCC / with input rows; head order varied; multi-head base rules), every level-1 relation aggregated / negated by later strata through every key shape, plain readers, recursive consumers, a third level; inputs = graphs with several routes of different length (diamonds, cycles, dense, chains) and NEARLY SATURATED inputs (the stratified model with one level-1 relation reset to its input rows: the first iteration is the last), serial and a slice through ascent_par!; non-trivial = a relation written in the loop and read by no rule of it gains a tuple and a consumer derives something; distinct = distinct (program, input); (d) parameterised-aggregator family (gen/c04_param.py): the aggregator EXPRESSION of an agg clause mentions rule variables bound by earlier items (clause / cross product / generator / let / simple join / the result of an earlier aggregate of the same rule / the previous iteration of a looping stratum): library percentile(p) and user-defined nth(n), cnt_above(t), at_least(t), top(n), between(lo, hi) (multi-valued), scaled_cnt(m) (no column), sum_where(z) (two columns), over input / copied / joined / recursively closed relations through every key shape, results consumed by later strata, serial and ascent_par!, vs the python stratified evaluation (sets and row counts) and, every serial run, vs the Coq specification semantics of the source language with parameterised aggregates (Engine/AggParamModel.v p_strat_fix over the vocabulary Engine/AggParamVocab.v; c04_param_agg_stratified_model is about that semantics); non-trivial = some agg clause is evaluated for two bindings that share the key, differ in the parameter and must yield different values",
+                samples=sample + pm["samples"][:1], distribution=dict(programs=len(results), features=feats, recursive_producer=rp["distribution"], parameterised_aggregators=pm["distribution"]), mismatches=mism,
                 trusted_base=["FRONT hook + gen/dl.py plan translation; gen/prog.py generated crates; python stratification (Tarjan) feeding the Coq oracle strat_fix, checked by Strat.stratified inside Coq",
-                              "code generation from MIR to Rust is modelled by hand in Engine/Eval.v (and LatEngine/LatAggEval.v for lattices with aggregates) and tied by these runs"],
+                              "code generation from MIR to Rust is modelled by hand in Engine/Eval.v (and LatEngine/LatAggEval.v for lattices with aggregates) and tied by these runs",
+                              "parameterised aggregators: the generated two-step code (collect the matching rows, apply the aggregator closure of the binding) is modelled by the translation Engine/AggParamModel.v tr_rule (proved equal to the source semantics rule by rule); the plan of such programs is NOT read from the FRONT dump (gen/dl.py has no parameterised aggregators): the tie compares the compiled programs with the SOURCE semantics p_strat_fix and the python oracle"],
                 assumptions=["aggregator semantics as in Agg/AggModel.v (C17)", "small i32 values; count results converted with `as i32`"],
                 extra=dict(lattice_aggregate_runs=lat["evaluations"], lattice_aggregate_distribution=lat["distribution"],
                            lattice_aggregate_model_column={k: v for k, v in latm.items() if k != "mismatches"},
